@@ -371,6 +371,22 @@ def copyArgs (r : Regs) (bp numArgs : Nat) : Nat → VMM Regs
       let r ← setSlot r (bp + p) (getSlot r (r.sp - numArgs + p))
       copyArgs r bp numArgs n
 
+/-- The frame decision of OpCall once the callee and its arguments are in place: reuse the frame for
+a self tail call, otherwise push a frame unless the frame array is full. -/
+def finishCompiled (f : Fn) (ipAfter : Int) (c : Core) (r : Regs) (numArgs : Nat)
+    (cr k : Nat) (free : List Nat) (cf : Fn) : VMM ExecOut :=
+  if isSelfTail f c.cur cr ipAfter then do
+    let discard := c.cur.discard || byteAt f (ipAfter + 1) == opPop
+    let r ← copyArgs r c.cur.bp numArgs numArgs
+    pure (.next { c with regs := { r with sp := r.sp - numArgs - 1 },
+                         cur := { c.cur with ip := -1, discard := discard } } false)
+  else if c.callers.length + 1 ≥ maxFrames then eRt "stack overflow"
+  else
+    let newFrame : Frame :=
+      { fnIdx := k + 1, fnRef := some cr, ip := -1, bp := r.sp - numArgs, free := free }
+    pure (.next { regs := { r with sp := r.sp - numArgs + cf.numLocals },
+                  cur := newFrame, callers := { c.cur with ip := ipAfter } :: c.callers } false)
+
 def execCall (code : Code) (f : Fn) (ip : Int) (c : Core) : VMM ExecOut := do
   let r := c.regs
   let numArgs0 := byteAt f (ip + 1)
@@ -405,17 +421,7 @@ def execCall (code : Code) (f : Fn) (ip : Int) (c : Core) : VMM ExecOut := do
       if numArgs != cf.numParams then
         if cf.varargs then eRt s!"wrong number of arguments: want>={cf.numParams - 1}, got={numArgs}"
         else eRt s!"wrong number of arguments: want={cf.numParams}, got={numArgs}"
-      if isSelfTail f c.cur cr ipAfter then do
-        let discard := c.cur.discard || byteAt f (ipAfter + 1) == opPop
-        let r ← copyArgs r c.cur.bp numArgs numArgs
-        pure (.next { c with regs := { r with sp := r.sp - numArgs - 1 },
-                             cur := { c.cur with ip := -1, discard := discard } } false)
-      else do
-        if c.callers.length + 1 ≥ maxFrames then eRt "stack overflow"
-        let newFrame : Frame :=
-          { fnIdx := k + 1, fnRef := some cr, ip := -1, bp := r.sp - numArgs, free := free }
-        pure (.next { regs := { r with sp := r.sp - numArgs + cf.numLocals },
-                      cur := newFrame, callers := { c.cur with ip := ipAfter } :: c.callers } false)
+      finishCompiled f ipAfter c r numArgs cr k free cf
   | .builtin name => do
       let ret ← callBuiltin name (slots r (r.sp - numArgs) numArgs)
       let r ← push { r with sp := r.sp - numArgs - 1 } ret
@@ -454,6 +460,7 @@ structure Cfg where
 inductive Outcome where
   | halted (cfg : Cfg)
   | failed (e : Err) (at_ : Cfg)      -- `at_`: the configuration whose dispatch failed
+  | limit (at_ : Cfg)                 -- ErrObjectAllocLimit: the tracked allocation of this dispatch was refused
   | outOfFuel (cfg : Cfg)
 
 /-- One observed dispatch: what the probe hook reports before the instruction is decoded. -/
@@ -465,7 +472,7 @@ structure Obs where
   depth  : Nat      -- framesIndex
   allocs : Int
 
-def allocLimit : Err := Err.runtime "object allocation limit exceeded"
+def allocLimitText : String := "object allocation limit exceeded"
 
 def observe (c : Core) (allocs : Int) : Obs :=
   { fnIdx := c.cur.fnIdx, ip := c.cur.ip + 1, sp := c.regs.sp, bp := c.cur.bp,
@@ -482,21 +489,25 @@ structure Log where
   sum    : Nat := 0
   first  : List Obs := []     -- reversed
 
+def Log.tick (log : Log) (keep : Nat) (o : Obs) : Log :=
+  { log with steps := log.steps + 1, sum := mix log.sum o,
+             first := if log.steps < keep then o :: log.first else log.first }
+
+def Log.count (log : Log) : Log := { log with counted := log.counted + 1 }
+
 /-- `VM.run`: dispatch until SUSPEND, an error, or the fuel runs out. `allocs` is `v.allocs`
 (`maxAllocs + 1` at the start; the limit error fires when a tracked allocation brings it to 0). -/
 def run (code : Code) (keep : Nat) : Nat → Int → Cfg → Log → Outcome × Log
   | 0, _, cfg, log => (.outOfFuel cfg, log)
   | fuel + 1, allocs, cfg, log =>
-    let o := observe cfg.core allocs
-    let log := { log with steps := log.steps + 1, sum := mix log.sum o,
-                          first := if log.steps < keep then o :: log.first else log.first }
+    let log := log.tick keep (observe cfg.core allocs)
     match ((exec code cfg.core).run cfg.gst).run cfg.heap with
     | .error e => (.failed e cfg, log)
     | .ok ((.halt c, g), h) => (.halted ⟨c, g, h⟩, log)
     | .ok ((.next c false, g), h) => run code keep fuel allocs ⟨c, g, h⟩ log
     | .ok ((.next c true, g), h) =>
-      if allocs - 1 == 0 then (.failed allocLimit cfg, log)
-      else run code keep fuel (allocs - 1) ⟨c, g, h⟩ { log with counted := log.counted + 1 }
+      if allocs - 1 == 0 then (.limit cfg, log)
+      else run code keep fuel (allocs - 1) ⟨c, g, h⟩ log.count
 
 def initCore (globals : Array Value) : Core :=
   { regs := { stack := Array.replicate stackSize .undef, sp := 0, globals := globals },
